@@ -263,3 +263,57 @@ def inline_unknown(fns, built, known):
             f["owner"] = owners[0]              # the closure now lives in the function its helper was spliced into
             f["also_owned_by"] = owners[1:]
     return fns, built, report
+
+
+# ----------------------------------------------------------------------------- debug assertions
+def prune_debug_asserts(f):
+    """`debug_assert*!` is compiled out of the build a server ships (no debug assertions); what the properties speak about is
+    that build.  The failing arm of such an assertion (blocks that only lead to the assertion's diverging panic call) is
+    removed from the switch that tests the condition, so that adding or removing a debug assertion changes no verdict.
+    Returns the number of edges removed."""
+    blocks = f["blocks"]
+    dead = set()
+    for i, b in enumerate(blocks):
+        t = b["t"]
+        if t[0] == "call" and t[1].get("dbgassert") and not isinstance(t[1].get("t"), int):
+            dead.add(i)
+    if not dead:
+        return 0
+    changed = True
+    while changed:
+        changed = False
+        for i, b in enumerate(blocks):
+            if i in dead or b.get("cleanup"):
+                continue
+            t = b["t"]
+            if t[0] == "goto":
+                nxt = [t[1]]
+            elif t[0] == "call" and t[1].get("dbgassert") and isinstance(t[1].get("t"), int):
+                nxt = [t[1]["t"]]           # building the assertion's message
+            elif t[0] == "drop" and isinstance(t[2], int) and b.get("dbg_only"):
+                nxt = [t[2]]
+            else:
+                continue
+            if all(n in dead for n in nxt):
+                dead.add(i)
+                changed = True
+    n = 0
+    for i, b in enumerate(blocks):
+        t = b["t"]
+        if t[0] != "switch" or i in dead:
+            continue
+        arms, other = t[2], t[3]
+        keep = [a for a in arms if a[1] not in dead]
+        if len(keep) == len(arms) and other not in dead:
+            continue
+        if other in dead:
+            if not keep:
+                continue
+            other = keep[-1][1]
+            keep = keep[:-1]
+        n += 1
+        if not keep or all(a[1] == other for a in keep):
+            b["t"] = ["goto", other]
+        else:
+            b["t"] = ["switch", t[1], keep, other] + list(t[4:])
+    return n
